@@ -27,6 +27,22 @@ reduce to - is observed and compared (a) with what the history alone prescribes 
 parameters and get_density names of a joint = names of its members minus the fixed ones) and (b) with the route
 "explicit names, everything read after every step".
 
+Refused operations and consumers (both create nothing, so by the property the state after them is the state before them).
+``refusals`` = the malformed uses of an object, executed one after the other, each guarded on its own: conditioning with an
+unknown keyword (alone / next to a valid one), with a surplus positional argument, with one variable given positionally AND
+by keyword, with a value of the wrong size; logd with a variable missing (positional / keyword); gradient without argument;
+sample() of a conditional; for models: forward / gradient / adjoint with a wrong-size argument, forward with an unknown
+keyword.  The library may refuse (any exception) or accept (the result is dropped); either way every live object must keep
+its fingerprint, and on an original the outcome must be the outcome on a fresh world.  ``consumers`` = the object used the
+way the library's own estimators and samplers use it: get_matrix() of the forward model it carries, and a BayesianProblem
+made of it the way a user would ((data distribution, prior).set_data / (likelihood, prior) / likelihood and prior of a
+Posterior): MAP (closed form for Gaussian-Gaussian-LinearModel, numerical otherwise), ML, sample_posterior with the automatic
+sampler choice of both interfaces (direct Gaussian sampling where the library selects it), 3 LinearRTO and 3 pCN steps of both
+interfaces.  Linear Bayesian worlds ``lin:<def>:<geom>:<focus>`` (y|x ~ N(A x, cI), x ~ N(m0, c0 I); A a LinearModel given
+as a MATRIX or as forward/adjoint FUNCTIONS; default geometries, MappedGeometry on the domain, MappedGeometry on the range,
+StepExpansion domain, KLExpansion domain - in the last four the operator acts on function values; original of the cell = the
+joint, y, or the model) put every consumer route on every model representation.
+
 The depth-first search keeps live objects (legitimate exactly as long as nothing was altered - which is what is
 re-checked after every step); every detected alteration is confirmed by replaying its history on a FRESH world
 before it is reported, and the live world is rebuilt from scratch before the search continues.
@@ -39,9 +55,18 @@ from vfw import refs
 from checks import _graphs as GR
 
 PROPERTY = "C11"
-RULE = ("cells = original object (every joint and every factor of graphs G1..G10, 8 specials) x value catalogue x "
-        "depth; inside a cell all sequences of {cond(S), call0, to_likelihood, model(dist), gibbs_new, gibbs_old, mh_new, mh_old, reads} "
-        "up to the depth are executed on the original and on every pool member derived so far; all read-only operations "
+RULE = ("cells = original object (every joint and every factor of graphs G1..G10, 10 specials, 30 linear Bayesian worlds = "
+        "{operator given as matrix | as forward/adjoint functions} x {default geometries | MappedGeometry domain | MappedGeometry "
+        "range | StepExpansion domain | KLExpansion domain} x {original = joint | data distribution | model}) x value catalogue x "
+        "depth; inside a cell all sequences of {cond(S), call0, to_likelihood, model(dist), gibbs_new, gibbs_old, mh_new, mh_old, reads, "
+        "refusals, consumers} up to the depth are executed on the original and on every pool member derived so far; refusals = "
+        "{conditioning with an unknown keyword | unknown next to a valid keyword | surplus positional | variable given twice | "
+        "wrong-size value, logd with a variable missing (positional | keyword), gradient without argument, sample of a "
+        "conditional; models: wrong-size forward / gradient / adjoint, unknown keyword} - refused or accepted, the outcome on an "
+        "original must be the outcome on a fresh world and nothing live may change; consumers = {get_matrix of the carried model, "
+        "BayesianProblem MAP | ML | sample_posterior (automatic choice, both interfaces), 3 steps of LinearRTO and pCN of both "
+        "interfaces} with results on an original compared with a fresh world; every operation on an original must end as on a "
+        "fresh world (same refusal type / same derived fingerprint); all read-only operations "
         "(names, conditioning variables, attributes, logd x2, gradient, seeded draw) run on every live object after every "
         "step; after every step the fingerprints of the original, the tracked factors/helpers and all "
         "pool members are re-taken and compared; states = (original, multiset of pool-member descriptors), "
@@ -53,13 +78,19 @@ RULE = ("cells = original object (every joint and every factor of graphs G1..G10
 BOUND = {
     "quick": "depth 3 for factors and specials (depth 2 for the six data factors y|x,s that repeat G1.y structurally), "
              "depth 3 for the joints G3 and G9 (3 variables), depth 2 for the other joints; "
+             "depth 2 for the 30 linear Bayesian worlds; refusals / consumers close a history (nothing but the read-only "
+             "operations of the fingerprints follows them in that history; the live world then continues with the sibling "
+             "histories), on every target after histories shorter than depth-1 and on the object made by the last operation after "
+             "histories of length depth-1; "
              "1 value catalogue (seed%3); conditioning alphabet = all non-empty subsets of the target's parameters "
              "(<=3 parameters) or singletons + full set (>=4); horizon run: 200 alternating re-conditionings of G1; "
              "naming: N1 (focus y, x) and N2 (focus z, s) to depth 3, N3 (focus y, d) to depth 2, 1 catalogue; routes: inferred names x "
              "first read before step 0..len(history), explicit names x first read at the end, observing the name-related "
              "entries (class, name, parameter names, conditioning variables, logd by keyword, get_density by name); join "
              "combines the target only with the un-conditioned other originals",
-    "thorough": "3 value catalogues at depth 3 for every factor and special; joints at depth 3 in catalogue 0 (G3, G9 in all "
+    "thorough": "refusals / consumers are ordinary members of the alphabet (any position, every target) in all cells of depth <= 3 "
+                "and close a history (every target) in the depth-4 cells; the 30 linear Bayesian worlds at depth 3 in 3 catalogues; "
+                "3 value catalogues at depth 3 for every factor and special; joints at depth 3 in catalogue 0 (G3, G9 in all "
                 "catalogues) and depth 2 otherwise; in addition depth 4 for factors with <=2 "
                 "parameters and for the specials in catalogue 0; horizon run: 2000 alternating "
                 "re-conditionings of G1, G2 and G9 posteriors (the Gibbs pattern); naming: N1, N2, N3 to depth 3 with both "
@@ -73,6 +104,15 @@ ASSUMPTIONS = [
     "operations are executed on live objects; soundness of re-using a world across sibling histories rests on the "
     "fingerprints re-taken after every step; every report is first reproduced on a fresh world",
     "enable_FD/disable_FD and attribute assignment are documented mutators and are not in the operation alphabet",
+    "refused operations: one representative per kind of malformed call (one unknown keyword, one surplus argument, the first "
+    "parameter given twice / with 2 entries too many); whether the library refuses or accepts is not judged (only that it does "
+    "what it does on a fresh world); objects an accepted malformed call returns are dropped, not explored further",
+    "consumers: BayesianProblem with 4 samples / 3 sampler steps, scale 0.1 for pCN, driven by numpy's global generator seeded "
+    "immediately before (state restored afterwards); consumer results on an original are compared with a fresh world at rtol "
+    "1e-7 (through an optimiser for ML / numerical MAP); only objects that carry a forward model are given to consumers; the "
+    "mapped geometries are linear maps (2p, 4p) so that the closed-form Gaussian routes stay applicable",
+    "quick tier: a latent effect of a refused / consumer operation that no fingerprint entry shows immediately is seen only "
+    "through the sibling histories that continue on the same live world (reported with the suffix |latent)",
     "Gibbs sweeps are driven by numpy's global generator seeded immediately before (state restored afterwards)",
     "library objects are held only in obj*/_* names or containers so that stack-based name inference cannot pick "
     "up harness variable names",
@@ -150,7 +190,7 @@ def cells(tier, seed):
     # refused / consumer operations: "leaf" = they close a history, "full" = ordinary members of the alphabet
     for c in out:
         if c["kind"] in ("joint", "factor", "special"):
-            c["closing"] = "leaf-new" if q else ("full" if (c["cat"] == cats[0] and c["depth"] <= 3) else "leaf")
+            c["closing"] = "leaf-new" if q else ("full" if c["depth"] <= 3 else "leaf")
     # longest cells first (better pool utilisation); order is deterministic
     out.sort(key=lambda c: (-(c.get("depth", 9) * 10 + (5 if c["kind"] == "joint" else 0)), str(sorted(c.items()))))
     return out
